@@ -130,6 +130,8 @@ func genLexCmd(in *bufio.Scanner, out *bufio.Writer, args []string) error {
 		// every quoted / comment context with awkward bodies (line breaks, multi-byte text on the last line, the
 		// context's own delimiters and statement separators inside), followed by more tokens on the same line
 		ctxs := []struct{ open, close string }{{"'", "'"}, {"\"", "\""}, {"`", "`"}, {"$$", "$$"}, {"$t$", "$t$"}, {"$doc$", "$doc$"}, {"/*", "*/"}, {"/* /*", "*/ */"},
+			// dollar-quote tags are identifiers: non-ASCII letters, digits and '_' in the tag, with and without a matching closer
+			{"$é$", "$é$"}, {"$тег$", "$тег$"}, {"$t_1$", "$t_1$"}, {"$日$", "$日$"}, {"$é$", "$e$"}, {"$aé$", "$aé$"}, {"$é$", ""},
 			{"-- ", "\n"}, {"# ", "\n"}, {"{", "}"}, {"x'", "'"}, {"‘", "’"}, {"“", "”"}, {"", ""}}
 		bodies := []string{"", "a", "\n", "a\nb", "é", "a\nб", "вторая строка", "first line\nвторая строка", "日本\n語", "\r\n", "a\r\nb", ";", "a;\nb;\n", ";\n", "a;b", "$", "$x", "a$b$c",
 			"tmp/*/2024", "/*", "*/", "*", "/", "--", "#", "'", "''", "\\'", "\"", "\\\"", "`", "``", "\\`", "\\", "\\\\", "\\n", "\\x41", "\\x", "\x00", "\xff", "\t", "{", "}", "{p:UInt8}", "0x1f", "1e5"}
